@@ -106,7 +106,7 @@ impl EdgeList {
     // OBSERVATION (reported): `u + order - 1` is evaluated in usize; for order > usize::MAX / 2 + 1 it overflows (u = order - 1
     // at the latest; for order == usize::MAX already at u == 1).  The precondition below is the WEAKEST one under which no
     // iteration overflows (u + order <= usize::MAX for every u < order  <=>  2 * order - 1 <= usize::MAX).
-    /*@fn impl=EdgeList trait=Cycle name=cycle loopify=BTreeSet wrap=fn:once,chain props=C14,C13
+    /*@fn impl=EdgeList trait=Cycle name=cycle loopify=BTreeSet noisolation wrap=fn:once,chain props=C14,C13
     requires
         order <= usize::MAX / 2 + 1,
     ensures
@@ -141,7 +141,7 @@ impl EdgeList {
             || (p.0 == u && ((it2.index() >= 1 && p.1 == cyc_prev(order as int, u as int)) || (it2.index() >= 2 && p.1 == cyc_next(order as int, u as int))))),
     @*/
 
-    /*@fn impl=EdgeList trait=Wheel name=wheel loopify=BTreeSet wrap=fn:once,chain props=C14,C13
+    /*@fn impl=EdgeList trait=Wheel name=wheel noisolation loopify=BTreeSet noisolation wrap=fn:once,chain props=C14,C13
     ensures
         order >= 4,
         r.wf(),
